@@ -45,6 +45,7 @@ MIN_REACH = {
     "reaps_with_warnings_turned_into_errors": {"quick": 100, "thorough": 300},
     "harvester_reaps_naming_a_merge_policy": {"quick": 30, "thorough": 100},
     "sampler_crops_whose_table_does_not_exist_yet": {"quick": 30, "thorough": 100},
+    "harvester_crops_whose_results_are_all_nan": {"quick": 8, "thorough": 30},
 }
 TIME_BUDGET = {"quick": 400, "thorough": 3400}
 
@@ -266,7 +267,13 @@ def run_case(ctx, case):
     fp.install()
     pkind = "multi:s,s" if kind in ("harvester", "to_ds") else "float"
     var_names = ["y", "z"] if pkind.startswith("multi") else "y"
-    fn = probe.Probe(pkind, name="dprobe")
+    # a sweep over a region where the function has no answer (every result NaN): still data to be delivered and kept
+    nan_results = kind == "harvester" and fail in ("none", "save_fails") and case["idx"] % 4 == 2 and not case.get("nosync")
+    ctl = os.path.join(tmp, "ctl.json")
+    probe.write_ctl(ctl, **({"nan_results": True} if nan_results else {}))
+    if nan_results:
+        ctx.count("harvester_crops_whose_results_are_all_nan")
+    fn = probe.Probe(pkind, ctl=ctl, name="dprobe")
     avals = list(range(1, n + 1))
     w = {"mode": "grid", "combos": [["a", avals]], "names": None, "cases": None, "constants": {}, "kind": pkind}
     data_file = None
@@ -278,6 +285,8 @@ def run_case(ctx, case):
         if ver is not None:
             kw["version"] = ver
         v = probe.make(pkind, kw)
+        if nan_results and ver in (None, 1):
+            v = tuple(float("nan") for _ in v) if isinstance(v, tuple) else float("nan")
         return {"y": v[0], "z": v[1]} if pkind.startswith("multi") else {"y": v}
 
     try:
